@@ -2,7 +2,7 @@
 # tools/try.sh <obligation>...  : run obligations in parallel (development), print one-line summaries
 cd /verif
 for o in "$@"; do
- ( ./run.py --obligation $o > /tmp/try.$o.out 2>&1; python3 - $o <<'PY'
+ ( VERIF_DEV_TIMEOUT=${VERIF_DEV_TIMEOUT:-150} ./run.py --obligation $o > /tmp/try.$o.out 2>&1; python3 - $o <<'PY'
 import sys,json,re
 o=sys.argv[1]; t=open('/tmp/try.%s.out'%o).read()
 try:
